@@ -761,6 +761,7 @@ func TestVerifC10TLV(t *testing.T) {
 	defer vc.Finish()
 
 	const batch = 256
+	attribEmitted := map[string]int{}
 	total := vc.N(1200, 120000) // batches over all shards
 	for i := 0; i < total; i++ {
 		if !vc.Mine(i) {
@@ -853,11 +854,24 @@ func TestVerifC10TLV(t *testing.T) {
 					}
 					// Attribution to an already understood deviation
 					// (the verdict above does not depend on it).
+					attributed := false
 					for _, lv := range []int{1, 2} {
 						if _, lok, _ := verifC10RefParse(x, kindOf, p2p, lv); lok == acc {
+							attributed = true
 							key = []string{"", "DBigSize-ignores-record-length",
 								"nonp2p-length>=2^63-consumes-nothing"}[lv]
 							break
+						}
+					}
+					// The shared runtime keeps only the first 50
+					// violations of a shard: report an already
+					// attributed deviation a few times only so that
+					// it cannot crowd out a new one.
+					if attributed {
+						vc.Count("attributed:"+key, 1)
+						attribEmitted[key]++
+						if attribEmitted[key] > 2 {
+							continue
 						}
 					}
 					vc.Violation("tlv_accept_iff_canonical", key, fmt.Sprintf(
